@@ -159,3 +159,53 @@ def run(prog, run):
                 run.ok(r5, f.loc(i), '%s called from %s' % (callee, top.qname), nontrivial=False)
             else:
                 run.violation(r5, 'TaskPrivate::%s#caller:%s' % (callee, top.qname), f.loc(i), '%s pokes the shared task record (%s)' % (top.display()[:60], callee))
+
+    # the stored continuation must not own the record it is stored in
+    r6 = run.rule('C13.R6', 'the continuation registered by then() does not capture the shared task record (it uses the TaskPrivate& it is called with): a by-value '
+                            'capture makes the record own itself and nothing is released when the continuation never runs', floor=30)
+    for targs, f in sorted(thens.items()):
+        run.instance(r6)
+        bad = None
+        for l in prog.lambdas_in(f, recursive=False):
+            if not any(True for _ in l.calls(TP + '::setContinuation')) and not any(True for _ in l.calls(TP + '::isContextAlive')):
+                continue
+            # captures are recorded on the lambda expression node in the enclosing function
+            for i, n in f.all_nodes('lambda'):
+                if l.id in (n.get('fns') or []):
+                    for c in n.get('caps', []):
+                        t = c.get('t') or ''
+                        if not t and c.get('init') is not None:
+                            t = f.nodes[c['init']].get('t') or f.nodes[f.skip(c['init'])].get('t') or f.nodes[f.skip(c['init'])].get('cls') or ''
+                            if not t:
+                                t = ' '.join(str(f.nodes[j].get('t') or '') for j in f.walk(c['init']))
+                        if not t and c.get('name') == 'this':
+                            continue
+                        if 'TaskPrivate' in t and not c.get('byref') and not t.strip().endswith('&'):
+                            bad = (i, c.get('name') or 'd', t)
+        if bad:
+            run.violation(r6, 'QXmppTask::then#continuation-owns-record', f.loc(bad[0]),
+                          'then%s: the stored continuation captures %s (%s) by value: the shared record now holds a reference to itself, so the record, the functor and what '
+                          'it captured are never released on any schedule in which the continuation does not run' % (targs[:40], bad[1], bad[2]))
+        else:
+            run.ok(r6, f.loc(), 'then%s: wrapper captures only the functor' % targs[:50], nontrivial=False)
+    # who writes the members of the shared record
+    r7 = run.rule('C13.R7', 'the members of the shared record are written only by their TaskPrivate setter (no signal handler or other function clears a continuation behind the '
+                            'back of the registration protocol)', floor=4)
+    from ..effects import field_uses
+    owners = {'continuation': ('setContinuation',), 'context': ('setContext',), 'finished': ('setFinished',), 'result': ('setResult', 'resetResult'), 'freeResult': ('setResult', 'TaskPrivate')}
+    rec = prog.record('QXmpp::Private::TaskData')
+    for fl in rec['fields']:
+        q = fl.get('qname') or ('QXmpp::Private::TaskData::' + fl['name'])
+        for g, i, k, h in field_uses(prog, q):
+            if k not in ('write', 'addr') or h == 'constructor initialiser':
+                continue
+            run.instance(r7)
+            direct = g.qname.split('::')[-1] if not g.is_lambda else None
+            top = top_function(prog, g)
+            allowed = owners.get(fl['name'], ())
+            if direct in allowed or (direct and direct.startswith('TaskPrivate')) or (direct and direct.startswith('~')):
+                run.ok(r7, g.loc(i), '%s written by %s' % (fl['name'], direct), nontrivial=False)
+            else:
+                run.violation(r7, 'TaskData::%s#writer:%s' % (fl['name'], top.qname.split('::')[-1] + ('#lambda' if g.is_lambda else '')), g.loc(i),
+                              'TaskData::%s is written in %s%s, outside its setter: a handler registered for one continuation/context can clear a later registration'
+                              % (fl['name'], top.display()[:50], ' (inside a lambda, e.g. a signal handler)' if g.is_lambda else ''))
